@@ -102,6 +102,13 @@ func Lifecycle(rng *wh.Rng, thorough bool) []Scenario {
 		p = append(p, "rh", "wst:0", "emit:0:1", "whe:1", "stop:0", "wsd:0", "wrr", "close:1", "wclose")
 		out = append(out, Scenario{Handlers: []HandlerSpec{plain(0)}, Prog: p, Seed: rng.Next(), Conf: true, Tag: fmt.Sprintf("life/empty-start/%v", parkWatcher)})
 	}
+	// a handler whose Subscribe fails the first time(s): RunHandlers returns the error, a later call must start it
+	out = append(out, Scenario{Handlers: []HandlerSpec{plain(0), {SubFail: 1, Outcomes: []string{"ok"}}}, Seed: rng.Next(), Conf: true, Tag: "life/subfail/late",
+		Prog: prog("add:0", "run", "wrun", "add:1", "rh", "rh", "cst:1", "emit:1:1", "whe:1", "rh", "stop:1", "wsd:1", "emit:0:1", "whe:2", "close:1", "wclose", "wrr")})
+	out = append(out, Scenario{Handlers: []HandlerSpec{plain(0), {SubFail: 2}, plain(2)}, Seed: rng.Next(), Tag: "life/subfail/twice",
+		Prog: prog("add:0", "run", "wrun", "add:1", "add:2", "rh", "rh", "rh", "cst:1", "cst:2", "emit:1:1", "emit:2:1", "whe:2", "close:2", "wclose", "wrr")})
+	out = append(out, Scenario{Handlers: []HandlerSpec{{SubFail: 1}}, Seed: rng.Next(), Conf: true, Tag: "life/subfail/run",
+		Prog: prog("add:0", "run", "wrr", "rh", "cst:0", "emit:0:1", "whe:1", "close:1", "wclose")})
 	// a second Run returns an error; RunHandlers on a router that is not running returns an error
 	out = append(out, Scenario{Handlers: []HandlerSpec{plain(0)}, Seed: rng.Next(), Conf: true, Tag: "life/second-run",
 		Prog: prog("add:0", "run", "wrun", "run2", "emit:0:1", "whe:1", "run2", "close:1", "wclose", "wrr")})
